@@ -82,7 +82,36 @@ def main(tier, replay):
         "unchanged; ACF = exp(line integral) with rows from a second matrix object (cache off), summed in the harness; FromProjData::apply multiplies by "
         "the stored factor at TOF position 0 for non-TOF factors; all call routes agree; set_up accepts/rejects the factor geometries it "
         "must; an object never set up or set up with fewer segments than the data is refused, one set up with more segments is accepted and "
-        "gives the same values as one set up for exactly the data's geometry.")
+        "gives the same values as one set up for exactly the data's geometry.  "
+        "HISTORIES ON ONE OBJECT (third extension): for every class whose API allows a change between two set_up calls, one object is set up "
+        "4-14 times and after EVERY set_up all oracles above and all correspondence lines run again (the model is given the factors as they "
+        "are at that call) and is_trivial, get_bin_efficiency of every bin, undo and apply (first and last route) are compared BITWISE with a "
+        "fresh object configured identically and set up once: BinNormalisationPETFromComponents (set_up without allocate is refused; "
+        "allocate, random factors, efficiencies / geometric / block factors rewritten in place one array at a time, all set to 1 -> is_trivial "
+        "must be true and the data unchanged, random again, another geometry (other number of tangential positions, possibly fewer segments) "
+        "with the same and with new factors, one element changed, allocate again with another set of components; the Lean side keeps the "
+        "object as the state machine CompObj (allocated / set up / _is_trivial / efficiency data) across the whole history: "
+        "`hist <id> new|allocate|setup comp ...`), BinNormalisationWithCalibration through the table subclass (set_calibration_factor "
+        "invalidates the set-up state: undo/apply must be refused until set_up, set_radionuclide, table rewritten in place, TOF data, another "
+        "geometry, unknown branching ratio = 1; state machine CalibObj: `hist <id> newcalib|setcal|setbr|setup calib|usable`), "
+        "BinNormalisationFromProjData (non-TOF factors: non-TOF data, TOF data, fewer segments, factors rewritten in place through the "
+        "ProjData the object holds), BinNormalisationFromAttenuationImage with a matrix projector and with its default projector (square and "
+        "non-square voxels; other number of tangential positions, fewer segments, first geometry again), and a nested "
+        "ChainedBinNormalisation(Chained(components, attenuation), calibrated table) of which ONLY the outer chain is set up again after the "
+        "members' factors were changed in place / for another geometry.  "
+        "NON-SQUARE IN-PLANE VOXELS: in every non-TOF span-1 geometry three more attenuation objects with voxel sizes (x,y) = (a,b) and (b,a), "
+        "a/b = 1.5 or 1.1, z different from both, given projector and default projector (rows for the model from the separate matrix object, "
+        "vx = the X voxel size); and (`acf` lines, section J) on scanners with 32-64 detectors per ring, 2-3 rings, 9-16 tangential "
+        "positions: a map that is mu (0.05-0.2 cm^-1) inside an off-centre box of whole voxels / inside a cylinder, in every plane, in images "
+        "of 25-41 voxels across with both orientations of the voxel-size ratio (1.5 in even rounds, 1.1 in odd rounds), through the "
+        "constructor from an image object, the constructor from a file name (Interfile written by the harness) and the parsed route "
+        "(text parameters), each with a matrix projector given and with none: for EVERY bin log(ACF) must equal mu/10 x (length in mm of "
+        "the LOR inside the box, resp. the sum over the voxels of the cylinder of the length inside each voxel's rectangle, each by "
+        "clipping the segment between the two end points of ProjDataInfo::get_LOR - no projector, no matrix row, no voxel-size unit on the "
+        "expectation side) within 2e-4 relative + 2e-5 (the ray tracing works on float coordinates; observed <= 2e-5), the smooth "
+        "cylinder's exp(mu x 2 sqrt(R^2-d^2)) within 20 % for d <= 0.6 R, undo(apply(1)) = 1; for every 7th (thorough: 3rd) bin of the box "
+        "cases the Lean model computes the same factor itself (`acfBox` at binary64: clipping, sqrt, exp) and the answer is compared with "
+        "rel = 2e-4.")
     chk.assumptions += ["float rounding is bounded, not modelled; overflow/underflow of float not modelled (generated values stay in range)",
                         "matrix rows of the ray-tracing projector (also used as the expectation for the on-the-fly default projector: agreement "
                         "of the two away from the edge of the field of view is C04's subject), detector pairs of bins, and - for the cases "
@@ -91,7 +120,16 @@ def main(tier, replay):
                         "ProjDataInfo::operator>= / operator== and ExamInfo::operator== are data for the check-on-use decisions (C01/C02)",
                         "a whole-data call on an attenuation object (or on the half of a chain that contains one) is made only with the "
                         "projector's own symmetries; apply_only_*/undo_only_*(ProjData&) cannot pass symmetries and are not called on such halves",
-                        "exp is an abstract function in the theorems (E(a+b)=E(a)E(b), E>0) and binary64 exp in the driver"]
+                        "exp is an abstract function in the theorems (E(a+b)=E(a)E(b), E>0) and binary64 exp in the driver",
+                        "histories: the component arrays / factor data of a re-used object are read by the harness at each set_up and given "
+                        "to the model as data; what the object answers BETWEEN an in-place change and the next set_up is not compared (for "
+                        "the calibrated class the model says it, C13_calibration_setters, but only `usable` is asked); members of a chain "
+                        "cannot be replaced through the API (no setters), only changed in place; an attenuation image cannot be changed "
+                        "after construction (the object holds a rescaled clone)",
+                        "section J: the end points of a bin's LOR (ProjDataInfo::get_LOR, LORAs2Points: C01) are data for the analytic "
+                        "expectation; the image has one plane more on each side than the scanner (in the standard image the tube of "
+                        "response of an end ring is 1/4 outside the image, and the factor there is smaller by design); maps are uniform "
+                        "in z; the `acf` tolerance 2e-4 is an observed-error budget, not a derived bound"]
     if audit:
         vlib.proof_coverage(chk, audit, "cd lean && lake build StirVerif.C13.Props Driver.C13 && lake env lean ../build/out/Audit_C13.lean")
     return chk.finish()
